@@ -1,7 +1,47 @@
-(* C10 — Problem validation is total and matches its documented rules. Only property theorems here. *)
+(* C10 — Problem validation is total and matches its documented rules.
+   "Reading any syntactically well-formed problem and matrix documents either yields a problem or a list of documented error
+    codes - never a crash - and a document is accepted exactly when it breaks none of the documented validation rules, each
+    reported code naming a rule the input really breaks."
+
+   read / validate : Model/Validation.v (the code as written); violates : Spec/Rules.v (the documentation page, readings R1-R9);
+   known : Spec/Rules.v (ten structural deviation classes K1..K10, each one a finding with a witness below);
+   gen_* : Generated/RuleTable.v (re-extracted from the Rust sources and the documentation page on every run).
+   The unrestricted statements
+        forall d, read d <> RPanic
+        forall d, read d = ROk <-> forall c, In c gen_doc_validation -> violates c d = false
+        forall d cs, read d = RErr cs -> forall c, In c cs <-> In c gen_doc_validation /\ violates c d = true
+   are FALSE for the code as written (the `_refuted` theorems); the `_partial` theorems prove them for every document outside
+   the known classes.  Only property theorems here, each closed by `exact`. *)
 From VRP Require Import Base.Tac Model.Validation Spec.Rules Generated.RuleTable Proofs.ValidationP.
 From Coq Require Import String.
 
+(* clause "never a crash" *)
+Theorem C10_read_total_partial : forall d, known d = false -> read d <> RPanic.
+Proof. exact read_total_l. Qed.
+
+(* clause "accepted exactly when it breaks none of the documented rules" *)
+Theorem C10_accept_iff_partial : forall d, known d = false ->
+  (read d = ROk <-> forall c, In c gen_doc_validation -> violates c d = false).
+Proof. exact accept_iff_l. Qed.
+
+(* clause "each reported code names a rule the input really breaks" (and every broken rule is reported, once) *)
+Theorem C10_codes_exact_partial : forall d cs, known d = false -> read d = RErr cs ->
+  cs <> [] /\ NoDup cs /\ forall c, In c cs <-> In c gen_doc_validation /\ violates c d = true.
+Proof. exact codes_exact_l. Qed.
+
+(* the validation engine itself: outside the known classes it reports exactly the broken rules, in source order *)
+Theorem C10_validate_is_spec_partial : forall d, known d = false ->
+  validate d = match filter (fun c => violates c d) (map fst all_checks) with [] => VOk | cs => VErr cs end.
+Proof. exact validate_spec. Qed.
+
+(* what validation buys the reader: a validated document (no rule broken) outside the known classes passes every unwrap /
+   assert of fleet_reader / job_reader / problem_reader that the model contains *)
+Theorem C10_validated_reader_safe_partial : forall d, known d = false ->
+  (forall c, In c (map fst all_checks) -> violates c d = false) -> reader_panics d = false.
+Proof. exact reader_safe. Qed.
+
+(* rule tables: every implemented rule is documented and vice versa, no rule is called twice, every defined rule is called,
+   every rule function reports its own code *)
 Theorem C10_rule_table_complete :
   (forall c, In c implemented_codes <-> In c gen_doc_validation)
   /\ NoDup implemented_codes
@@ -9,6 +49,7 @@ Theorem C10_rule_table_complete :
   /\ (forall p, In p gen_emitted -> fst p = snd p).
 Proof. exact rule_table_complete_l. Qed.
 
+(* the model runs the rules of the source, in the order of the source (E1502/E1503 cannot fire on reduced documents) *)
 Theorem C10_model_table_matches_source :
   gen_group_order = ["jobs"; "vehicles"; "objectives"; "routing"; "relations"]%string
   /\ map fst jobs_checks = gen_jobs_calls
@@ -16,3 +57,39 @@ Theorem C10_model_table_matches_source :
   /\ map fst routing_checks = filter (fun c => negb (zmem c [1502; 1503])) gen_routing_calls
   /\ map fst spec_table = map fst all_checks.
 Proof. exact model_table_matches_source_l. Qed.
+
+(* non-vacuity: a document outside the known classes that is accepted, and one that is rejected with two codes *)
+Theorem C10_nonvacuous : known w_base = false /\ breaks_no_rule w_base /\ read w_base = ROk.
+Proof. exact nonvacuous_l. Qed.
+Theorem C10_nonvacuous_rejected : exists d, known d = false /\ read d = RErr [1103; 1306].
+Proof. exact nonvacuous_err_l. Qed.
+
+(* ---- the unrestricted clauses fail: one witness per known class ---- *)
+(* K1  three time windows, the first two overlap: accepted although E1103 is broken (windows(2).any) *)
+Theorem C10_accept_iff_K1_refuted : exists d, k1_three_windows d = true /\ read d = ROk /\ violates 1103 d = true.
+Proof. exists w_k1. exact k1_witness. Qed.
+(* K2  service task with an inverted window: accepted although E1103 is broken; with an unparsable time: panic in job_reader *)
+Theorem C10_accept_iff_K2_refuted : exists d, k2_unchecked_task_times d = true /\ read d = ROk /\ violates 1103 d = true.
+Proof. exists w_k2_accept. exact k2_witness_accept. Qed.
+Theorem C10_read_total_K2_refuted : exists d, k2_unchecked_task_times d = true /\ validate d = VOk /\ read d = RPanic.
+Proof. exists w_k2_panic. exact k2_witness_panic. Qed.
+(* K3  required offset break + unparsable shift start: the validation itself panics (check_e1303 -> parse_time) *)
+Theorem C10_read_total_K3_refuted : exists d, k3_offset_break_bad_start d = true /\ validate d = VPanic /\ read d = RPanic.
+Proof. exists w_k3. exact k3_witness. Qed.
+(* K4..K7, K9: documents that break no documented rule, pass validation and panic in the reader *)
+Theorem C10_read_total_K4_refuted : exists d, k4_start_latest_bad d = true /\ breaks_no_rule d /\ validate d = VOk /\ read d = RPanic.
+Proof. exists w_k4. exact k4_witness. Qed.
+Theorem C10_read_total_K5_refuted : exists d, k5_offset_arity d = true /\ breaks_no_rule d /\ validate d = VOk /\ read d = RPanic.
+Proof. exists w_k5. exact k5_witness. Qed.
+Theorem C10_read_total_K6_refuted : exists d, k6_capacity_empty d = true /\ breaks_no_rule d /\ validate d = VOk /\ read d = RPanic.
+Proof. exists w_k6. exact k6_witness. Qed.
+Theorem C10_read_total_K7_refuted : exists d, k7_over8 d = true /\ breaks_no_rule d /\ validate d = VOk /\ read d = RPanic.
+Proof. exists w_k7. exact k7_witness. Qed.
+Theorem C10_read_total_K9_refuted : exists d, k9_no_vehicles d = true /\ breaks_no_rule d /\ validate d = VOk /\ read d = RPanic.
+Proof. exists w_k9. exact k9_witness. Qed.
+(* K8  pickups and deliveries with empty demand vectors: E1102 reported although the sums are equal *)
+Theorem C10_codes_exact_K8_refuted : exists d, k8_empty_demand_vectors d = true /\ read d = RErr [1102] /\ violates 1102 d = false.
+Proof. exists w_k8. exact k8_witness. Qed.
+(* K10 no profile and no matrix: E1501 is broken but the approximated matrices assert before validation runs *)
+Theorem C10_read_total_K10_refuted : exists d, k10_no_profiles d = true /\ violates 1501 d = true /\ read d = RPanic.
+Proof. exists w_k10. exact k10_witness. Qed.
